@@ -45,7 +45,6 @@ type opIn struct {
 
 type caseIn struct {
 	Backend string `json:"backend"`
-	Guarded bool   `json:"guarded"`
 	Ops     []opIn `json:"ops"`
 }
 
@@ -134,7 +133,7 @@ func (r *runner) run(c caseIn) (string, caseIn, []interface{}, bool) {
 	var terms []string
 	var obs []interface{}
 	nontrivial := false
-	done := caseIn{Backend: c.Backend, Guarded: c.Guarded}
+	done := caseIn{Backend: c.Backend}
 	for _, o := range c.Ops {
 		switch o.T {
 		case "set":
@@ -268,17 +267,20 @@ func (r *runner) run(c caseIn) (string, caseIn, []interface{}, bool) {
 		}
 		done.Ops = append(done.Ops, o)
 	}
-	term := hlib.App("Case", coqBackend(c.Backend), hlib.Bool(c.Guarded), hlib.List(terms))
+	term := hlib.App("Case", coqBackend(c.Backend), hlib.List(terms))
 	return term, done, obs, nontrivial
 }
 
 // ---------- generation ----------
 
 type gen struct {
-	r       *hlib.Rng
-	alpha   []byte
-	shadow  map[string]bool // keys present (only used to build guarded inputs)
-	guarded bool
+	r      *hlib.Rng
+	alpha  []byte
+	shadow map[string]bool // keys present (to make bounds, targets and writes collide)
+	// inside: no stored key equals the resolved end bound and every Seek target is
+	// non-empty and inside [start,end) (iterator calls are valid more often);
+	// otherwise anything goes
+	inside bool
 }
 
 func (g *gen) str(lo, hi int) []byte {
@@ -373,7 +375,7 @@ func (g *gen) iter() opIn {
 			o.EndKind = "nil"
 		case x < 11:
 			o.EndKind = "emptyvalue"
-		case x < 12 && !g.guarded:
+		case x < 12 && !g.inside:
 			o.EndKind = "bytes" // empty, non-nil end
 		default:
 			o.EndKind = "bytes"
@@ -387,7 +389,7 @@ func (g *gen) iter() opIn {
 			o.End = hlib.HexS(e)
 		}
 		end := resolveEnd(o)
-		if g.guarded && end != nil && g.shadow[string(end)] {
+		if g.inside && end != nil && g.shadow[string(end)] {
 			if try < 50 {
 				continue
 			}
@@ -400,7 +402,7 @@ func (g *gen) iter() opIn {
 		pickSeek := func() (iopIn, bool) {
 			for t := 0; t < 30; t++ {
 				k := g.seekTarget()
-				if !g.guarded || inRange(k) {
+				if !g.inside || inRange(k) {
 					return iopIn{T: "seek", K: hlib.HexS(k)}, true
 				}
 			}
@@ -510,7 +512,9 @@ func main() {
 		return
 	}
 
-	// fixed witness of the known Badger finding (and its non-occurrence elsewhere)
+	// fixed cases: the inputs of the two repaired Badger findings (a stored key equal
+	// to the exclusive end bound; Seek with an empty target or a target outside
+	// [start,end)), on all three backends
 	wit := func(be string) caseIn {
 		c := caseIn{Backend: be}
 		for _, k := range []string{"a", "a1", "a2", "b", "c"} {
@@ -523,8 +527,24 @@ func main() {
 		}
 		return c
 	}
+	witSeek := func(be string) caseIn {
+		c := caseIn{Backend: be}
+		for _, k := range []string{"a", "a1", "a2", "b", "c", "d", "\x00"} {
+			c.Ops = append(c.Ops, opIn{T: "set", K: hlib.HexS([]byte(k)), V: hlib.HexS([]byte("v" + k))})
+		}
+		sk := func(k string) iopIn { return iopIn{T: "seek", K: hlib.HexS([]byte(k))} }
+		for _, rev := range []bool{false, true} {
+			c.Ops = append(c.Ops,
+				opIn{T: "iter", Start: hlib.HexS([]byte("b")), EndKind: "bytes", End: hlib.HexS([]byte("d")), Rev: rev,
+					Iops: []iopIn{sk("a"), sk("e"), sk("d"), sk(""), sk("b"), sk("c"), {T: "next"}, sk("a2"), sk("b1")}},
+				opIn{T: "iter", StartNil: true, EndKind: "emptyvalue", Rev: rev, Iops: []iopIn{sk(""), sk("\x00"), {T: "next"}, sk("e")}},
+				opIn{T: "iter", Start: hlib.HexS([]byte("a1")), EndKind: "nil", Rev: rev, Iops: []iopIn{sk(""), sk("a"), sk("a2"), sk("b")}})
+		}
+		return c
+	}
 	for _, be := range []string{"memdb", "leveldb", "gobadgerdb"} {
 		emit("witness/"+be, wit(be))
+		emit("witness-seek/"+be, witSeek(be))
 	}
 
 	r := hlib.NewRng(opts.Seed)
@@ -536,14 +556,14 @@ func main() {
 	if opts.Thorough() {
 		nseq, nbadger = 2500, 500
 	}
-	for _, guarded := range []bool{true, false} {
-		stream := "unrestricted"
-		if guarded {
-			stream = "guarded"
+	for _, inside := range []bool{true, false} {
+		stream := "any"
+		if inside {
+			stream = "inside"
 		}
 		bad := 0
 		for i := 0; i < nseq; i++ {
-			g := &gen{r: r.Fork(), guarded: guarded}
+			g := &gen{r: r.Fork(), inside: inside}
 			g.alpha = alphas[i%len(alphas)]
 			nops := 4 + i%17
 			if i < 12 {
@@ -558,7 +578,7 @@ func main() {
 				bad++
 			}
 			for _, be := range bes {
-				emit(stream+"/"+be+"/"+strings.ReplaceAll(fmt.Sprintf("%x", g.alpha), " ", ""), caseIn{Backend: be, Guarded: guarded, Ops: ops})
+				emit(stream+"/"+be+"/"+strings.ReplaceAll(fmt.Sprintf("%x", g.alpha), " ", ""), caseIn{Backend: be, Ops: ops})
 			}
 		}
 	}
